@@ -6,13 +6,14 @@ from copy import deepcopy
 from lxml import etree
 from harness import lib, gen, differ_corr, oracles
 
-F_SETS = [{'F': 0.1}, {'F': 0.5}, {'F': 0.71, 'fast_match': True}, {'F': 0.9, 'fast_match': True}, {'F': 1.0},
+F_SETS = [{'F': 0.1}, {'F': 0.5}, {'F': 0.6, 'fast_match': True, 'best_match': True}, {'F': 0.71, 'fast_match': True}, {'F': 0.9, 'fast_match': True}, {'F': 1.0},
           {'F': 1.0, 'best_match': True}, {'F': 0.3, 'ratio_mode': 'accurate', 'fast_match': True}]
 UNIQ_SETS = [{'uniqueattrs': ['i', 'j']}, {'uniqueattrs': ['i', ('a', 'j'), 'k'], 'best_match': True},
              {'uniqueattrs': [], 'fast_match': True}, {'uniqueattrs': [('b', 'i')]},
              # several (tag, attr) pairs for ONE tag, pairs for several tags, list-form pairs
              {'uniqueattrs': [('a', 'i'), ('a', 'j')]}, {'uniqueattrs': [('a', 'j'), ('a', 'i'), ('b', 'i')], 'fast_match': True},
-             {'uniqueattrs': [['a', 'i'], ['a', 'k'], 'j'], 'best_match': True}]
+             {'uniqueattrs': [['a', 'i'], ['a', 'k'], 'j'], 'best_match': True},
+             {'uniqueattrs': ['i', ('b', 'j')], 'best_match': True, 'fast_match': True}]
 XMLID = '{http://www.w3.org/XML/1998/namespace}id'
 IGN_SETS = [{'ignored_attrs': ['i'], 'uniqueattrs': [('a', 'i'), ('b', 'i'), 'j']}, {'ignored_attrs': ['i']}, {'ignored_attrs': ['i', 'j'], 'fast_match': True},
             {'ignored_attrs': ['i'], 'uniqueattrs': ['i', 'j']}, {'ignored_attrs': ['k', '{urn:p}i'], 'best_match': True}]
@@ -502,6 +503,14 @@ def evaluate(built, focus):
                     found.append(("C01", "diff raised " + raw))
             else:
                 found.append(("C01", "diff raised " + raw))
+            # the actions the differ handed out BEFORE it raised were emitted all the same (Differ.diff is a generator and
+            # the documented way to consume it): they are judged, in order, on the clauses that speak of single actions
+            pre = emitted_prefix(desc, opts)
+            if pre:
+                stats["prefix_scripts"] = stats.get("prefix_scripts", 0) + 1
+                for p_, m in oracles.check_script(L, R, pre, ign):
+                    if p_ in ("C04", "C05", "C13") :
+                        found.append((p_, "[actions emitted before diff raised %s] %s" % (raw, m)))
         else:
             stats["scripts"] += 1
             stats["actions"] += len(raw)
@@ -650,6 +659,24 @@ def text_level_c03(desc, opts, stats):
     except Exception as ex:  # noqa
         out.append(("C01", "main.diff_texts raised %r" % ex))
     return out
+
+
+def emitted_prefix(desc, opts):
+    """The actions Differ.diff() yields before it raises (empty when it does not raise or yields nothing)."""
+    from xmldiff import diff as xd
+    o = {k: v for k, v in opts.items() if not k.startswith("_")}
+    out = []
+    try:
+        Lx, Rx = etree.fromstring(desc["left"]), etree.fromstring(desc["right"])
+        if desc["opts"].get("_embed"):
+            differ_corr.embed_pair(Lx, Rx, desc["left"])
+        if desc["opts"].get("_blank"):
+            differ_corr.blank_pair(Lx, Rx)
+        for a in xd.Differ(**o).diff(Lx, Rx):
+            out.append(a)
+    except Exception:  # noqa
+        return out
+    return []
 
 
 def api_script(desc, opts):
